@@ -28,6 +28,10 @@ Expect2 == [i \in 1..Total |-> <<N + 1 - RevPart(i - 1), (i - 1) - RevPrefix(Rev
 Out == [ins |-> case, fault |-> fault, form |-> form, assoc |-> assoc, asplit |-> asplit, asizes |-> (IF asplit = "resplit" THEN Reversed(Sizes) ELSE Sizes),
         valid |-> Valid(case), indexed |-> Indexed(case), total |-> Total,
         expect |-> IF Valid(case) THEN Expect ELSE <<>>,
+        \* overriding: a field set held by the base parts AND by separately merged associated parts (made later by
+        \* create_associated with other values) is served by the base parts, with override = TRUE by the associated
+        \* parts - for a merged store exactly as for single files.  Generated for inputs that carry a second field set.
+        ovr |-> (Valid(case) /\ fault = 0 /\ case[1].fs = "B"),
         rebuild |-> RebuildCase, expect2 |-> IF RebuildCase THEN Expect2 ELSE <<>>]
 Emit == PrintT("@@" \o ToJson(Out))
 =============================================================================
